@@ -1,4 +1,4 @@
-package wmesh
+package meshkit
 
 import (
 	"fmt"
@@ -40,7 +40,7 @@ func (m *Mesh) RoutesAt(i int) []RouteView {
 		out = append(out, RouteView{"forward", r.Key + "=" + r.Target, r.OriginAgent, r.NextHop, r.Metric, r.Path, r.Sequence, r.LastUpdate})
 	}
 	for _, r := range rm.AgentTable().GetAllRoutes() {
-		out = append(out, RouteView{"agent", m.nameOf(r.AgentID), r.OriginAgent, r.NextHop, r.Metric, r.Path, r.Sequence, r.LastUpdate})
+		out = append(out, RouteView{"agent", m.NameOf(r.AgentID), r.OriginAgent, r.NextHop, r.Metric, r.Path, r.Sequence, r.LastUpdate})
 	}
 	sort.Slice(out, func(a, b int) bool {
 		x, y := out[a], out[b]
@@ -55,16 +55,16 @@ func (m *Mesh) RoutesAt(i int) []RouteView {
 	return out
 }
 
-func (m *Mesh) pathStr(p []identity.AgentID) string {
+func (m *Mesh) PathStr(p []identity.AgentID) string {
 	s := make([]string, len(p))
 	for i, id := range p {
-		s[i] = m.nameOf(id)
+		s[i] = m.NameOf(id)
 	}
 	return strings.Join(s, ">")
 }
 
-func (m *Mesh) routeStr(r RouteView) string {
-	return fmt.Sprintf("%s %s origin=%s via=%s metric=%d path=%s seq=%d", r.Table, r.Key, m.nameOf(r.Origin), m.nameOf(r.NextHop), r.Metric, m.pathStr(r.Path), r.Seq)
+func (m *Mesh) RouteStr(r RouteView) string {
+	return fmt.Sprintf("%s %s origin=%s via=%s metric=%d path=%s seq=%d", r.Table, r.Key, m.NameOf(r.Origin), m.NameOf(r.NextHop), r.Metric, m.PathStr(r.Path), r.Seq)
 }
 
 // Originated describes what node i originates according to its configuration
@@ -75,11 +75,11 @@ type Originated struct {
 	Forward []string // key=target
 }
 
-func (m *Mesh) originatedBy(i int) Originated {
+func (m *Mesh) OriginatedBy(i int) Originated {
 	nd := m.Nodes[i]
 	var o Originated
 	for _, r := range nd.Cfg.Exit.Routes {
-		o.CIDR = append(o.CIDR, canonCIDR(r))
+		o.CIDR = append(o.CIDR, CanonCIDR(r))
 	}
 	for _, d := range nd.Cfg.Exit.DomainRoutes {
 		o.Domain = append(o.Domain, strings.ToLower(d))
